@@ -662,7 +662,19 @@ func ruleTypestate(c *Ctx) {
 		})
 	}
 	// T3: consumers of a possibly-nil *partialArray receiver
-	for _, m := range []string{"get", "set", "add", "remove"} {
+	// the methods reachable through the container interface, taken from its
+	// method set (a method added to the interface is a consumer as well)
+	t3 := []string{"get", "set", "add", "remove"}
+	if ci := b.Lib.Pkg.Scope().Lookup("container"); ci != nil {
+		if it, ok := ci.Type().Underlying().(*types.Interface); ok {
+			t3 = nil
+			for i := 0; i < it.NumMethods(); i++ {
+				t3 = append(t3, it.Method(i).Name())
+			}
+			sort.Strings(t3)
+		}
+	}
+	for _, m := range t3 {
 		f := b.method(b.Lib, "partialArray", m)
 		key := "(*partialArray)." + m + ": receiver tested for nil before it is dereferenced"
 		if f == nil {
